@@ -35,7 +35,7 @@ CLAIMED["C09"] = ("same encoding as C08 (vcheck/ignoremodel.py): range test of s
     "bounded symbolic model checking: NotInRange iff node_start < range.start or node_end > range.end for present bounds (Skip first); out-of-range statements are pushed untouched with their semicolon; NotInRange only reaches the block-only visitors",
     "trusts rustc's MIR printer, mirsym, z3; positions are full_moon byte offsets; 'inside the range = whole-file result' is outside", "5/C08-C09")
 
-CLAIMED["C06"] = ("integer slice of format_table_constructor from the MIR (mirsym, real Shape methods inlined) executed on an arbitrary input spacing and on the canonical output spacing; z3 (cvc5 integer-encoding fallback) decides stability; two-pass replay",
+CLAIMED["C06"] = ("measured-values kernel over all formatter functions (only formatter output reaches Shape::take_*_line / test_over_budget: provenance over executed MIR paths), text-rewritten-twice kernel over bounded symbolic strings; integer slice of format_table_constructor from the MIR (mirsym, real Shape methods inlined) executed on an arbitrary input spacing and on the canonical output spacing; z3 (cvc5 integer-encoding fallback) decides stability; two-pass replay",
     "bounded symbolic model checking of the layout decision that reads the input layout: for <=3 fields, widths < 2^16, any shape/indent/column width: canonical-separator inputs are a fixed point, multi-line is a fixed point, the arithmetic cannot panic; arbitrary separator spacing is NOT stable (known finding F5)",
     "trusts rustc's MIR printer, mirsym, z3/cvc5; all other trial-format heuristics and the blank-line fold are outside the claim", "5/C06")
 
@@ -43,7 +43,7 @@ CLAIMED["C01"] = ("mirsym over check_stmt_requires_semicolon (all statement vari
     "bounded symbolic model checking of four named output-breaking mechanisms only (the property as a whole - parser x printer - is NOT claimed): `;` before `(`, `--` from nested minus, `[ [[`, line comment followed by a newline",
     "trusts rustc's MIR printer, mirsym, the parser contract that Prefix::Expression holds a parenthesised expression, z3; keys nested deeper than 3 wrappers and all other ways to produce invalid output are outside", "5/C01")
 
-CLAIMED["C11"] = ("mirsym over get_quote_to_use (symbolic literal), format_function_args (recursion inlined, symbolic option/argument/next-suffix), create_function_*_trivia and their call sites; z3 against the README option table; option replay",
+CLAIMED["C11"] = ("format_function_call over a two-suffix list (the ObscureWithoutParens hint is a function of the next suffix kind); mirsym over get_quote_to_use (symbolic literal), format_function_args (recursion inlined, symbolic option/argument/next-suffix), create_function_*_trivia and their call sites; z3 against the README option table; option replay",
     "bounded symbolic model checking of the decision kernels: quote choice for every literal of <=4 characters x 4 styles; call form for every call_parentheses value x argument shape x obscurity; spaces(1) exactly for the option values that name it",
     "trusts rustc's MIR printer, mirsym, z3; 'every layout path of every construct' beyond these kernels is outside", "5/C11")
 
